@@ -81,13 +81,13 @@ def scan_classes():
             ci.body = body
             for sm in re.finditer(r'\b(struct|union)\s+(\w+)\s*\{', body):
                 e = cxx.match_bracket(body, sm.end() - 1, '{', '}')
-                ci.structs[sm.group(2)] = body[sm.start():e]
+                ci.structs[sm.group(2)] = body[sm.start():e] + cxx.packed_marker(body, e)
             for sm in re.finditer(r'\bclass\s+(\w+)\s*\{', body):
                 e = cxx.match_bracket(body, sm.end() - 1, '{', '}')
                 inner = flatten(body[sm.end():e - 1])
                 decls = re.findall(r'\b(?:uint8_t|uint16_t|uint32_t|uint64_t)\s+\w+\s*:\s*\d+(?:\s*,\s*\w+\s*:\s*\d+)*\s*;', inner)
                 if decls:
-                    ci.structs[sm.group(1)] = 'struct %s { %s }' % (sm.group(1), ' '.join(decls))
+                    ci.structs[sm.group(1)] = 'struct %s { %s }' % (sm.group(1), ' '.join(decls)) + cxx.packed_marker(body, e)
             ci.consts = dict(re.findall(r'\bstatic\s+const\s+\w+\s+(\w+)\s*=\s*(\d+)\s*;', flatten(body)))
             for em in re.finditer(r'\benum\s+(\w+)\s*\{', body):
                 e = cxx.match_bracket(body, em.end() - 1, '{', '}')
